@@ -230,8 +230,9 @@ class Consumer:
             return self._coro(inv, x)
         self.log.add("cs", self.cid, inv, x, self.log.now(), getattr(self.log, "ctx", None))
         if inv in self.fail_at:
-            self.log.add("cx", self.cid, inv)
-            raise Boom(("c", self.cid, inv))
+            ex = Boom(("c", self.cid, inv))
+            self.log.add("cx", self.cid, inv, ex)
+            raise ex
         if self.mode == "sync" or self.auto:
             self.log.add("cf", self.cid, inv, self.log.now())
             return None
@@ -242,8 +243,9 @@ class Consumer:
     async def _coro(self, inv, x):
         self.log.add("cs", self.cid, inv, x, self.log.now(), getattr(self.log, "ctx", None))
         if inv in self.fail_at:
-            self.log.add("cx", self.cid, inv)
-            raise Boom(("c", self.cid, inv))
+            ex = Boom(("c", self.cid, inv))
+            self.log.add("cx", self.cid, inv, ex)
+            raise ex
         if self.auto:
             self.log.add("cf", self.cid, inv, self.log.now())
             return None
@@ -298,8 +300,9 @@ class Jobs:
                 self.pending.append((inv, fut))
                 await fut
             if inv in self.fail_at:
-                self.log.add("jx", self.jid, inv)
-                raise Boom(("j", self.jid, inv))
+                ex = Boom(("j", self.jid, inv))
+                self.log.add("jx", self.jid, inv, ex)
+                raise ex
             self.log.add("jf", self.jid, inv, self.log.now())
             return self.f(x)
         finally:
